@@ -9,6 +9,7 @@ import (
 	"context"
 	"errors"
 	"fmt"
+	"math"
 	"os"
 	"path/filepath"
 	"slices"
@@ -284,6 +285,11 @@ func (r *Runner) builtin(ctx context.Context, pos syntax.Pos, name string, args 
 			*enclosing = 1
 		case 1:
 			if n, err := strconv.Atoi(args[0]); err == nil {
+				if n < 1 {
+					// Like bash, fail and break out of all enclosing loops.
+					r.breakEnclosing = math.MaxInt
+					return failf(1, "%s: %s: loop count out of range\n", name, args[0])
+				}
 				*enclosing = n
 				break
 			}
